@@ -11,6 +11,7 @@ is C04 (`strand_jobs_ordered`), not stated here.
 -/
 import YaclibModel.Proofs.StrandRun
 import YaclibModel.Proofs.StrandTowerBase
+import YaclibModel.Proofs.PoolExecContract
 import YaclibModel.Extracted.Kernels
 import YaclibModel.Model.Skeletons
 
@@ -324,6 +325,12 @@ theorem tower_satisfies_contract {base : Exec} (hb : ExecContract base) : ∀ n,
 /-- e.g. strands over strands … over a single worker, and over the most general executor -/
 theorem tower_over_worker1_and_spec (n : Nat) : ExecContract (tower worker1 n) ∧ ExecContract (tower specBase n) :=
   ⟨tower_satisfies_contract worker1_contract n, tower_satisfies_contract specBase_contract n⟩
+
+/-- … and over the FairThreadPool model of C08 (`Pool.poolExec`: n ≥ 1 workers, Stop / SoftStop / HardStop or nobody at
+    any moment, with or without spurious wake-ups; `Pool.pool_contract`, stated as `pool_honours_contract` in Props/C08) -/
+theorem tower_over_pool {n : Nat} (hn : 0 < n) (stop : Option Pool.StopKind) (spur : Bool) (k : Nat) :
+    ExecContract (tower (Pool.poolExec n stop spur) k) :=
+  tower_satisfies_contract (Pool.pool_contract hn stop spur) k
 
 /-- what C07 says about one strand, as a predicate on its state -/
 structure LevelProps (v : State) : Prop where
